@@ -243,7 +243,7 @@ Inductive op :=
 | OSpawn (id v : N) | OInsert (c : N) | OReg (id v : N) | OClose (c : N)
 | OUnreg (c : N) | OSend (s d tag : N) | ODisc (id : N) (o : option N).
 
-Definition locked_register : bool := false.
+Definition locked_register : bool := true.
 
 Definition doev (s : state) (e : event) : state :=
   match step locked_register s e with Some s' => s' | None => s end.
